@@ -26,6 +26,16 @@ pub(crate) fn check_rabin_params(
         )
         .attach_context("chunk_size", chunk_size.to_string()));
     }
+    if chunk_min_size < constants::BUF_SIZE {
+        // The chunker moves its complete read-ahead buffer (up to `BUF_SIZE` bytes) into the
+        // next chunk before it starts looking for a cut point.
+        return Err(RusticError::new(
+            ErrorKind::Unsupported,
+            "Chunk min size must be at least {min} for the rabin chunker. chunk min size = {chunk_min_size}.",
+        )
+        .attach_context("min", constants::BUF_SIZE.to_string())
+        .attach_context("chunk_min_size", chunk_min_size.to_string()));
+    }
     if chunk_min_size > chunk_size {
         return Err(RusticError::new(
             ErrorKind::Unsupported,
